@@ -85,6 +85,16 @@ def reuse_before_extend(ctx, rule='C10.reuse-before-extend'):
         from flow import _discr_switch
         sw = _discr_switch(fn, t['target'], t['dest']['l']) if t['target'] is not None else None
         if not sw:
+            # `alloc(n).unwrap_or_else(|| self.extend(n))`: the combinator runs the closure exactly when the free set returned None, and the advance lives in the closure
+            du = ctx.du(fn)
+            comb = [b3 for b3, t3, c3 in calls_named(ctx.facts, fn, 'Option::unwrap_or_else', 'Option::or_else', 'Option::map_or_else', 'Option::ok_or_else')
+                    if t3['args'] and (du.slice_operand(t3['args'][0])[0] & {t['dest']['l']})]
+            bodies = c02.alloc_bodies(ctx, txalloc)
+            in_closure = all(any(where == b.loc(bb2, si2) for b in bodies[1:]) for bb2, si2, where in adv)
+            adv_in_main = [1 for b2, si2, s2 in stores_to_field(bodies[0], 'Meta', 'num_pages')]
+            if comb and in_closure and not adv_in_main:
+                res.append(ok(rule, 'the free set\'s answer at %s goes to a combinator whose closure (run only on None) is the only place that advances the high-water mark' % fn.loc(bb), sites=1))
+                continue
             res.append(bad(rule, '%s | result of the free-set allocation not tested' % fn.qual, 'the result of %s at %s is not matched on' % (alloc.qual, fn.loc(bb)), where=fn.loc(bb)))
             continue
         sbb, tg, oth = sw
